@@ -76,7 +76,7 @@ fn drop_candidates_referenced_elsewhere<'a>(picked_tables: &IdSet, current_versi
         // C08.2: on success no remaining candidate is pointed into by a table outside the compaction
         r is Ok ==> forall|k: int| 0 <= k < final(linked_blob_files)@.len() ==> !referenced_outside(current_version.tables@, picked_tables.view(), (#[trigger] final(linked_blob_files)@[k]).id),
 {
-//@ FROM src/compaction/worker.rs :: - :: fn pick_blob_files_to_rewrite :: STMTS `for table in current_version . iter_tables ( )` .. `for table in current_version . iter_tables ( )` :: OBL C08.2
+//@ FROM src/compaction/worker.rs :: - :: fn pick_blob_files_to_rewrite :: STMTS `for table in current_version . iter_tables ( )` .. `for table in current_version . iter_tables ( )` :: OBL C08.2, C09.16
 //@ SUBST `for table in $1 {` ==> `let mut iter__ = $1; loop { let Some(table) = iter__.next() else { break; };`
 //@ SUBST `. unwrap_or_default ( ) . into_iter ( ) . filter ( $1 ) . collect :: < Vec < _ > > ( )` ==> `.unwrap_or_default(); let other_refs = filter_refs(other_refs, $1)`
 //@ SUBST `. unwrap_or_default ( ) . into_iter ( ) . find ( $1 )` ==> `.unwrap_or_default(); let other_ref = find_ref(other_ref, $1)`
